@@ -386,7 +386,8 @@ pub fn run(rep: &mut Report, thorough: bool) {
         // descriptors
         let nfds = *rng.pick(&[0usize, 1, 5, 30, 200]);
         for k in 0..nfds {
-            b.spec.fds.push(match rng.below(7) {
+            b.spec.fds.push(match rng.below(8) {
+                7 => FdSpec::DeadProcDir,
                 0 => FdSpec::File { path: format!("{dir}/fd file {k}") },
                 1 => FdSpec::DeletedFile { path: format!("{dir}/fd-del-{k}") },
                 2 => FdSpec::Dir { path: dir.clone() },
